@@ -19,7 +19,7 @@ CACHE = os.path.join(VERIF, ".cache")
 DRIVER_DIR = os.path.join(VERIF, "driver")
 DRIVER = os.path.join(DRIVER_DIR, "target", "debug", "teos-facts")
 TARGET = os.path.join(CACHE, "target")
-FACTS = os.path.join(CACHE, "facts")
+FACTS = os.environ.get("VERIF_FACTS_CACHE") or os.path.join(CACHE, "facts")
 EXPECTED_CRATES = ["teos_common", "teos", "teosd", "teos_cli", "watchtower_plugin", "watchtower_client"]
 MEMBER_PKGS = ["teos-common", "teos", "watchtower-plugin"]
 # floors on bodies per crate, counted on the pinned tree (a wrapper that silently
